@@ -195,13 +195,32 @@ func discoverRoles(p *Program, e *Engine) (*Roles, error) {
 		}
 		*g.dst = gv
 	}
-	// constructor: static callee of NewWatcher returning the interface
-	for _, b := range ro.NewWatcher.Blocks {
-		for _, in := range b.Instrs {
-			if c, ok := in.(*ssa.Call); ok {
-				if cal := c.Call.StaticCallee(); cal != nil && cal.Signature.Results().Len() >= 1 &&
-					types.Identical(cal.Signature.Results().At(0).Type(), ro.Iface) {
-					ro.Ctor = cal
+	// constructor: the function returning the interface that NewWatcher calls, directly or through package helpers
+	{
+		seen := map[*ssa.Function]bool{}
+		queue := []*ssa.Function{ro.NewWatcher}
+		for len(queue) > 0 && ro.Ctor == nil {
+			fn := queue[0]
+			queue = queue[1:]
+			if seen[fn] {
+				continue
+			}
+			seen[fn] = true
+			for _, b := range fn.Blocks {
+				for _, in := range b.Instrs {
+					c, ok := in.(*ssa.Call)
+					if !ok {
+						continue
+					}
+					cal := c.Call.StaticCallee()
+					if cal == nil || fnPkg(cal) != p.Main {
+						continue
+					}
+					if cal.Signature.Results().Len() >= 1 && types.Identical(cal.Signature.Results().At(0).Type(), ro.Iface) {
+						ro.Ctor = cal
+					} else if len(seen) < 8 {
+						queue = append(queue, cal)
+					}
 				}
 			}
 		}
